@@ -88,6 +88,8 @@ pub enum Event {
     Rename { from: String, to: String },
     /// the file is gone, a directory of the same name stands in its place
     ReplaceByDir { file: String },
+    /// the file is gone, a symbolic link to a sibling file stands in its place
+    ReplaceBySymlink { file: String, target: String },
     // faults on the served digest list (indices modulo the current length)
     ListRename { index: usize, to: String },
     ListSwapDigests { a: usize, b: usize },
@@ -124,6 +126,7 @@ impl Event {
             Event::Stray { .. } => "stray_file",
             Event::Rename { .. } => "rename",
             Event::ReplaceByDir { .. } => "file_replaced_by_directory",
+            Event::ReplaceBySymlink { .. } => "file_replaced_by_symlink",
             Event::ListRename { .. } => "list_entry_renamed",
             Event::ListSwapDigests { .. } => "list_digests_swapped",
             Event::ListDrop { .. } => "list_entry_dropped",
@@ -151,6 +154,14 @@ type Dir = BTreeMap<String, Vec<u8>>; // immutable/<name> -> bytes
 /// content that stands for "this name is a directory, not a file" in the model of the restored
 /// directory
 const DIR_SENTINEL: &[u8] = b"\0<<this name is a directory>>\0";
+/// content that stands for "this name is a symbolic link to <name>" (a sibling in `immutable/`)
+const LINK_SENTINEL: &[u8] = b"\0<<symlink>>\0";
+
+fn link_target(bytes: &[u8]) -> Option<String> {
+    let t = std::str::from_utf8(bytes.strip_prefix(LINK_SENTINEL)?).ok()?;
+    // (a damaged sentinel is just file content)
+    if t.is_empty() || t.contains('/') || t.contains('\0') { None } else { Some(t.to_string()) }
+}
 type DigestList = Vec<(String, String)>;
 
 pub struct World<'a> {
@@ -372,7 +383,12 @@ impl<'a> World<'a> {
         let mut d = Dir::new();
         if let Ok(rd) = std::fs::read_dir(self.work.join("immutable")) {
             for e in rd.flatten() {
-                if e.path().is_file() {
+                if std::fs::symlink_metadata(e.path()).is_ok_and(|m| m.file_type().is_symlink()) {
+                    let target = std::fs::read_link(e.path()).map(|t| t.to_string_lossy().to_string()).unwrap_or_default();
+                    let mut v = LINK_SENTINEL.to_vec();
+                    v.extend_from_slice(target.as_bytes());
+                    d.insert(e.file_name().to_string_lossy().to_string(), v);
+                } else if e.path().is_file() {
                     d.insert(e.file_name().to_string_lossy().to_string(), std::fs::read(e.path()).unwrap_or_default());
                 } else if e.path().is_dir() {
                     d.insert(e.file_name().to_string_lossy().to_string(), DIR_SENTINEL.to_vec());
@@ -390,8 +406,10 @@ impl<'a> World<'a> {
             if b.as_slice() == DIR_SENTINEL {
                 std::fs::create_dir_all(imm.join(n)).expect("directory in place of a file");
                 std::fs::write(imm.join(n).join("inside"), b"x").expect("write inside");
+            } else if let Some(target) = link_target(b) {
+                std::os::unix::fs::symlink(&target, imm.join(n)).expect("symlink in place of a file");
             } else {
-                std::fs::write(imm.join(n), b).expect("write immutable");
+                std::fs::write(imm.join(n), b).unwrap_or_else(|e| panic!("write immutable {n}: {e}"));
             }
         }
     }
@@ -470,6 +488,13 @@ impl<'a> World<'a> {
             Event::ReplaceByDir { file } => {
                 if self.dir.contains_key(file) {
                     self.dir.insert(file.clone(), DIR_SENTINEL.to_vec());
+                }
+            }
+            Event::ReplaceBySymlink { file, target } => {
+                if file != target && self.dir.contains_key(file) && self.dir.get(target).is_some_and(|b| b.as_slice() != DIR_SENTINEL && link_target(b).is_none()) {
+                    let mut v = LINK_SENTINEL.to_vec();
+                    v.extend_from_slice(target.as_bytes());
+                    self.dir.insert(file.clone(), v);
                 }
             }
             Event::ListRename { index, to } => {
@@ -659,6 +684,21 @@ impl<'a> World<'a> {
                             missing.push(name)
                         }
                     }
+                    // a symbolic link: what a reader of that name gets is the target's content
+                    Some(b) if link_target(b).is_some() => {
+                        match link_target(b).and_then(|t| dir.get(&t)).filter(|t| t.as_slice() != DIR_SENTINEL && link_target(t).is_none()) {
+                            None => {
+                                if !allow_missing {
+                                    missing.push(name)
+                                }
+                            }
+                            Some(t) => {
+                                if common::sha256_hex(t) != self.model[&name] {
+                                    wrong.push(name)
+                                }
+                            }
+                        }
+                    }
                     Some(b) => {
                         if common::sha256_hex(b) != self.model[&name] {
                             wrong.push(name)
@@ -669,7 +709,7 @@ impl<'a> World<'a> {
         }
         let foreign: Vec<&String> = dir
             .iter()
-            .filter(|(_, b)| b.as_slice() != DIR_SENTINEL)
+            .filter(|(_, b)| b.as_slice() != DIR_SENTINEL && link_target(b).is_none())
             .map(|(name, _)| name)
             .filter(|name| !self.model.contains_key(*name) && immutable_like_number(name).is_some_and(|k| k >= lo && k <= hi))
             .collect();
@@ -847,6 +887,9 @@ pub fn single_faults(trios: u64) -> Vec<Event> {
         v.push(Event::ZeroFill { file: f.clone() });
         v.push(Event::Delete { file: f.clone() });
         v.push(Event::ReplaceByDir { file: f.clone() });
+        if let Some(other) = cert.iter().find(|o| *o != f) {
+            v.push(Event::ReplaceBySymlink { file: f.clone(), target: other.clone() });
+        }
     }
     for (i, a) in cert.iter().enumerate() {
         for b in &cert[i + 1..] {
@@ -984,7 +1027,7 @@ fn gen_fault(rng: &mut Rng, cfg: &Config) -> Event {
     let all: Vec<String> = (0..=beacon + 1).flat_map(common::trio_names).collect();
     let n = cert.len();
     let f = |rng: &mut Rng| rng.pick(&cert).clone();
-    match rng.weighted(&[3, 3, 2, 3, 6, 5, 3, 4, 2, 2, 2, 2, 1, 1, 1, 1, 2, 1, 2]) {
+    match rng.weighted(&[3, 3, 2, 3, 6, 5, 3, 4, 2, 2, 2, 2, 1, 1, 1, 1, 2, 1, 2, 2]) {
         0 => Event::BitFlip { file: f(rng), permille: rng.below(1000) as u32, bit: rng.below(8) as u8 },
         1 => Event::Truncate { file: f(rng), permille: rng.below(1000) as u32 },
         2 => Event::ZeroFill { file: f(rng) },
@@ -1044,7 +1087,8 @@ fn gen_fault(rng: &mut Rng, cfg: &Config) -> Event {
             Event::ListShift { front, alias_prefix: alias_prefix.to_string() }
         }
         17 => Event::DirFollowList,
-        _ => Event::ReplaceByDir { file: f(rng) },
+        18 => Event::ReplaceByDir { file: f(rng) },
+        _ => Event::ReplaceBySymlink { file: f(rng), target: rng.pick(&all).clone() },
     }
 }
 
